@@ -140,6 +140,13 @@ def generate(seed, tier, enlarged=False):
             if kind == 'establish':
                 c['r'] = clip_below_leaf(d, c['a'], c['r'])
         cases.append(c)
+    # path_for / path_to on hierarchies that are re-arranged while they are being asked: structural histories
+    # (as C09, with moves of compartments and of nested cells); after every update every node is asked for its path
+    from harness import struct, nestmove
+    for _ in range(n // 40):
+        cases.append({'kind': 'hist', 'hist': struct.gen_history(rng, rng.randint(3, 8), allow_bad=False,
+                                                                 only_kinds=['generate', 'generate', 'add', 'move', 'move', 'delete'])})
+        cases.append(nestmove.gen_case(rng))
     return cases
 
 
@@ -479,8 +486,39 @@ def stat_key(c, ob):
 
 
 def run(cases, tier='quick', seed=0):
-    return common.generic_run(__import__('harness.c17', fromlist=['x']), cases, seed)
+    from harness import struct, nestmove
+    me = __import__('harness.c17', fromlist=['x'])
+
+    def links_oracle(c, ob, rng):
+        for i, o in enumerate(ob.get('obs', ob.get('steps', []))):
+            if o.get('links'):
+                ln = o['links'][0]
+                return [('after structural update %d the node at %r answers path_for() = %r: following it from the '
+                         'root does not reach the node' % (i, ln[0], ln[1]), 'upward-link')]
+        return []
+
+    class Hist:
+        __name__ = 'harness.struct'
+        IMPORTS, CHECK_FN, BAD_TERM = struct.IMPORTS, struct.CHECK_FN, struct.BAD_TERM
+        run_impl, render, oracle = staticmethod(struct.run_impl), staticmethod(struct.render), staticmethod(links_oracle)
+        nontrivial, stat_key = staticmethod(struct.nontrivial), staticmethod(struct.stat_key)
+
+    class Nest:
+        __name__ = 'harness.nestmove'
+        IMPORTS, CHECK_FN, BAD_TERM = struct.IMPORTS, struct.CHECK_FN, struct.BAD_TERM
+        run_impl, render, oracle = staticmethod(nestmove.run_impl), staticmethod(nestmove.render), staticmethod(links_oracle)
+        nontrivial, stat_key = staticmethod(nestmove.nontrivial), staticmethod(nestmove.stat_key)
+    return common.merge_streams(cases, [
+        (lambda c: c['kind'] not in ('hist', 'nestmove'), lambda cs: common.generic_run(me, cs, seed)),
+        (lambda c: c['kind'] == 'hist', lambda cs: common.generic_run(Hist, cs, seed, shard=40)),
+        (lambda c: c['kind'] == 'nestmove', lambda cs: common.generic_run(Nest, cs, seed, shard=40))])
 
 
 def model_output(case, ob):
+    if case['kind'] == 'hist':
+        from harness import struct
+        return struct.model_output(case, ob)
+    if case['kind'] == 'nestmove':
+        from harness import nestmove
+        return nestmove.model_output(case, ob)
     return common.coq_eval('C17', IMPORTS, 'model_out %s' % render(case, ob))
